@@ -38,3 +38,11 @@ pub const KF_C04_MT107_C02: bool = false;
 pub const KF_C04_MT204_C01: bool = true;
 #[cfg(not(kani))]
 pub const KF_C04_MT204_C01: bool = false;
+#[cfg(kani)]
+pub const KF_C10_TRAILER_DISPLAY_DROPS_PDM: bool = true;
+#[cfg(not(kani))]
+pub const KF_C10_TRAILER_DISPLAY_DROPS_PDM: bool = false;
+#[cfg(kani)]
+pub const KF_C10_TRAILER_DISPLAY_DROPS_SYS: bool = true;
+#[cfg(not(kani))]
+pub const KF_C10_TRAILER_DISPLAY_DROPS_SYS: bool = false;
